@@ -57,7 +57,7 @@ def _parse_values(out: str) -> Dict[str, str]:
             if isinstance(top, list):
                 for pair in top:
                     if isinstance(pair, list) and len(pair) == 2:
-                        vals[show(pair[0])] = show(pair[1])
+                        vals[f"#{len(vals)}"] = show(pair[1])
     except IndexError:
         pass
     return vals
@@ -88,9 +88,8 @@ def solve_one(smt2: str, watch: Dict[str, str], timeout_s: float, strings: bool 
         if verdict in ("sat", "unsat"):
             result.update(verdict=verdict, backend=be)
             if verdict == "sat" and watch:
-                raw = _parse_values(out)
-                inv = {v: k for k, v in watch.items()}
-                result["model"] = {inv.get(k, k): v for k, v in raw.items()}
+                raw = _parse_values(out)  # answers come back in the order the terms were asked
+                result["model"] = {k: raw.get(f"#{i}", "?") for i, k in enumerate(watch)}
             break
     result["time_s"] = round(total, 3)
     return result
